@@ -637,6 +637,10 @@ def save_cog_with_dask(
 
     parts_base = kw.pop("parts_base", None)
 
+    if xx.dtype == "bool":
+        # TIFF has no boolean samples (tifffile would declare a 1-bit image), store 0/1 bytes
+        xx = xx.astype("uint8")
+
     # normalize compression and remove GDAL compat options from kw
     predictor, compression, compressionargs = _norm_compression_tifffile(
         xx.dtype, predictor, compression, compressionargs, level=level, kw=kw
